@@ -20,11 +20,17 @@
     * `Topo`         – the attribute database: service of a characteristic, which services and
                        accessories carry a `setter_callback`.
   Values are opaque (`Val`, a canonical rendering of the Python value); only `is None` matters.
-  Scope (DESIGN C10 Reading): a batch addresses existing characteristics with pairwise distinct
-  (aid, iid); `_notify` (the 'ev' flags) is C12's business and not modelled.
+  A batch is an arbitrary list of entries: the same (aid, iid) may occur several times (the dict
+  stores `results[aid][iid] = …`, `updates[acc][service][char] = …` then overwrite in place: `upsert`),
+  and an entry may name something that is not a characteristic of the bridge (`Topo.known`; mirrors
+  the repaired code, design/fixes/C10-nonexistent-characteristic.patch: the entry alone is answered
+  RESOURCE_DOES_NOT_EXIST; as shipped the whole request was aborted by an AttributeError).
+  `_notify` (the 'ev' flags) is C12's business and not modelled: it reads only the 'ev' key and
+  touches only subscriptions.
   Python dicts that keep insertion order (`results[aid][iid]`,
-  `updates_by_accessories_services[acc][service][char]`) are modelled by the list of insertions
-  plus `firsts` (keys in first-insertion order) and `filter` (the group of a key).
+  `updates_by_accessories_services[acc][service][char]`) are modelled by an association list
+  with in-place overwrite (`upsert`) plus `firsts` (keys in first-insertion order) and `filter`
+  (the group of a key).
   No Mathlib import: this file is loaded by the line-protocol driver.
 -/
 namespace Hap.Writes
@@ -44,6 +50,8 @@ def OK : Int := 0
 def FAIL : Int := -70402
 /-- HAP_SERVER_STATUS.INVALID_VALUE_IN_REQUEST -/
 def INVALID : Int := -70410
+/-- HAP_SERVER_STATUS.RESOURCE_DOES_NOT_EXIST -/
+def NOEXIST : Int := -70409
 
 structure Topo where
   /-- index (within its accessory) of the service that holds the characteristic -/
@@ -52,6 +60,9 @@ structure Topo where
   svcCb : Nat → Nat → Bool
   /-- `acc.setter_callback` is set -/
   accCb : Nat → Bool
+  /-- `acc.get_characteristic(aid, iid)` finds a characteristic (the accessory exists and the
+      iid is that of a characteristic, not of a service) -/
+  known : CharId → Bool := fun _ => true
 
 inductive CharCb where
   | absent
@@ -125,9 +136,16 @@ structure L1 where
   /-- `updates_by_accessories_services[acc][service][char] = value`, in insertion order -/
   updates : List Upd
 
+/-- `d[k] = v` on an insertion-ordered dict: overwrite in place, or append a new key -/
+def upsert {κ α : Type} [DecidableEq κ] (k : κ) (v : α) : List (κ × α) → List (κ × α)
+  | [] => [(k, v)]
+  | (k', v') :: t => if k' = k then (k, v) :: t else (k', v') :: upsert k v t
+
 /-- body of `for query in queries:` -/
-def step1 (fixed nu expired : Bool) (s : L1) (q : Query) : L1 :=
+def step1 (fixed nu expired : Bool) (T : Topo) (s : L1) (q : Query) : L1 :=
   if !q.hasValue && !expired then s else                         -- continue
+  if !T.known q.id then                                          -- not a characteristic: this entry alone fails
+    { s with results := upsert q.id ⟨NOEXIST, none⟩ s.results } else
   let value : Option Val := if q.hasValue then q.value else none -- query.get("value")
   let run : Bool := value.isSome && (!fixed || !expired)         -- `value is not None [and not expired]`
   let r : CharSt × Int × Option Val :=
@@ -135,13 +153,13 @@ def step1 (fixed nu expired : Bool) (s : L1) (q : Query) : L1 :=
   let res : Res := if r.2.2.isSome && q.wr then ⟨r.2.1, r.2.2⟩ else ⟨r.2.1, none⟩
   -- `if set_result == SUCCESS: value = char.to_valid_value(value)` (C10b)
   let up : Option Val := if nu && run && r.2.1 == OK then q.valid else value
-  let results := s.results ++ [(q.id, res)]
+  let results := upsert q.id res s.results                       -- results[aid][iid] = result
   if fixed && expired then { st := r.1, results := results, updates := s.updates }  -- continue
-  else { st := r.1, results := results, updates := s.updates ++ [(q.id, up)] }
+  else { st := r.1, results := results, updates := upsert q.id up s.updates }
 
-def loop1 (fixed nu expired : Bool) : L1 → List Query → L1
+def loop1 (fixed nu expired : Bool) (T : Topo) : L1 → List Query → L1
   | s, [] => s
-  | s, q :: qs => loop1 fixed nu expired (step1 fixed nu expired s q) qs
+  | s, q :: qs => loop1 fixed nu expired T (step1 fixed nu expired T s q) qs
 
 /-- keys of an insertion-ordered dict: first occurrences, in order -/
 def firsts {κ : Type} [DecidableEq κ] : List κ → List κ
@@ -222,7 +240,7 @@ structure WriteOut where
 /-- `set_characteristics` after the pid / expiry block. -/
 def setChars (fixed nu : Bool) (T : Topo) (B : Behav) (expired : Bool) (vals : CharId → Val)
     (queries : List Query) : WriteOut :=
-  let l1 := loop1 fixed nu expired ⟨⟨vals, []⟩, [], []⟩ queries
+  let l1 := loop1 fixed nu expired T ⟨⟨vals, []⟩, [], []⟩ queries
   let p2 := pass2 T B l1.updates l1.results l1.st.log
   let chars := assemble p2.1
   { vals := l1.st.vals, log := p2.2, chars := chars,
